@@ -46,18 +46,34 @@ func getAllFramesFromDataFrame(
 	firstDataFrame *ipldbindcode.DataFrame,
 	dataFrameGetter func(ctx context.Context, wantedCid cid.Cid) (*ipldbindcode.DataFrame, error),
 ) ([]*ipldbindcode.DataFrame, error) {
+	// Every frame of a payload is linked exactly once. Remember the CIDs already followed, so that
+	// a frame linked twice (or a cycle of links, which would otherwise recurse until the stack
+	// overflows) is reported as an error.
+	return collectDataFrames(firstDataFrame, dataFrameGetter, make(map[cid.Cid]struct{}))
+}
+
+func collectDataFrames(
+	firstDataFrame *ipldbindcode.DataFrame,
+	dataFrameGetter func(ctx context.Context, wantedCid cid.Cid) (*ipldbindcode.DataFrame, error),
+	seen map[cid.Cid]struct{},
+) ([]*ipldbindcode.DataFrame, error) {
 	frames := []*ipldbindcode.DataFrame{firstDataFrame}
 	// get the next data frames
 	next, ok := firstDataFrame.GetNext()
 	if !ok || len(next) == 0 {
 		return frames, nil
 	}
-	for _, cid := range next {
-		nextDataFrame, err := dataFrameGetter(context.Background(), cid.(cidlink.Link).Cid)
+	for _, link := range next {
+		nextCid := link.(cidlink.Link).Cid
+		if _, dup := seen[nextCid]; dup {
+			return nil, fmt.Errorf("data frame %s is linked more than once", nextCid)
+		}
+		seen[nextCid] = struct{}{}
+		nextDataFrame, err := dataFrameGetter(context.Background(), nextCid)
 		if err != nil {
 			return nil, err
 		}
-		nextFrames, err := getAllFramesFromDataFrame(nextDataFrame, dataFrameGetter)
+		nextFrames, err := collectDataFrames(nextDataFrame, dataFrameGetter, seen)
 		if err != nil {
 			return nil, err
 		}
